@@ -75,6 +75,10 @@ const (
 
 func newCRig(name string) *cRig {
 	r := &cRig{st: hlib.NewMemStream(name), calls: map[int]*callState{}}
+	if atomic.AddInt32(&rigSeq, 1)%2 == 0 {
+		// every other rig: the transport reports a failure when closed (and is closed all the same)
+		r.st.CloseErr = errCloseReports
+	}
 	r.st.Gate = func(p []byte) {
 		var m net.Message
 		if err := m.Read(bytes.NewReader(p)); err != nil || m.Header.Type != net.Call {
